@@ -315,6 +315,21 @@ pub fn serialisation(seed: u64, n: u64) -> Out {
     let cases: Vec<(&str, Box<dyn Fn() -> Result<String, String>>, &str)> = vec![
         ("pool config without timeouts and queue_mode", Box::new(|| serde_json::from_str::<PoolConfig>(r#"{"max_size": 5}"#).map(|p| format!("{:?}", p)).map_err(|e| e.to_string())), "PoolConfig { max_size: 5, timeouts: Timeouts { wait: None, create: None, recycle: None }, queue_mode: Fifo }"),
         (
+            "timeouts section without wait",
+            Box::new(|| serde_json::from_str::<PoolConfig>(r#"{"max_size": 5, "timeouts": {"create": {"secs": 1, "nanos": 0}}}"#).map(|p| format!("{:?}", p.timeouts)).map_err(|e| e.to_string())),
+            "Timeouts { wait: None, create: Some(1s), recycle: None }",
+        ),
+        (
+            "timeouts section without create and recycle",
+            Box::new(|| serde_json::from_str::<PoolConfig>(r#"{"max_size": 5, "timeouts": {"wait": {"secs": 2, "nanos": 0}}}"#).map(|p| format!("{:?}", p.timeouts)).map_err(|e| e.to_string())),
+            "Timeouts { wait: Some(2s), create: None, recycle: None }",
+        ),
+        (
+            "empty timeouts section",
+            Box::new(|| serde_json::from_str::<Timeouts>("{}").map(|p| format!("{:?}", p)).map_err(|e| e.to_string())),
+            "Timeouts { wait: None, create: None, recycle: None }",
+        ),
+        (
             "timeouts with nulls",
             Box::new(|| serde_json::from_str::<Timeouts>(r#"{"wait": null, "create": null, "recycle": null}"#).map(|p| format!("{:?}", p)).map_err(|e| e.to_string())),
             "Timeouts { wait: None, create: None, recycle: None }",
